@@ -1099,3 +1099,287 @@ def judge(chk, pid, results, stream):
                 if nm in mine and k < len(mc) and mc[k] == "0":
                     chk.broken.append({"kind": "model-statement", "name": "ok_" + nm,
                                        "detail": "the executable statement is false on the model run of: " + sc.model_line()[:400]})
+
+
+# --------------------------------------------------------------------------------------------------
+# scenario families aimed at particular properties, the corpus, and the common check driver
+# --------------------------------------------------------------------------------------------------
+SUCCESS = simple("sasl", "success")
+PROCEED = simple("tls", "proceed")
+
+
+def base_ops(flags=0, node=1, res=1, pw=1, cert=0, user=(1, 1000), tlsnew=1, cb=0, verdicts=()):
+    ops = [("flags", flags), ("jid", node, res), ("pass", pw)]
+    if cert:
+        ops.append(("cert", 1))
+    ops.append(("user", user[0], user[1]))
+    ops.append(("env", tlsnew, cb, list(verdicts)))
+    return ops
+
+
+def runs(*chunks):
+    out = []
+    for c in chunks:
+        if c is None or isinstance(c, str):
+            out.append(("run", c))
+        else:
+            out.append(("run", ("items", list(c))))
+        out.append(("run", None))
+    return out
+
+
+def happy_client(tls=True, mechs=("PLAIN",), sm=True, session=None, zlib=False):
+    """Server steps of a complete client negotiation (list of chunks)."""
+    st = [["h1"], [features(tls, list(mechs))]]
+    if tls:
+        st += [[PROCEED], ["h1"], [features(False, list(mechs))]]
+    st += [[SUCCESS], ["h1"]]
+    if zlib:
+        st += [[features(zlib=True, bind=True)], [simple("compress", "compressed")], ["h1"]]
+    st += [[features(bind=True, session=session, sm=sm)], [iq("bind", "result", "bindjid")]]
+    if session == "req":
+        st.append([iq("session", "result")])
+    if sm:
+        st.append([sm_elem("enabled", True, True)])
+    return st
+
+
+def corpus_scenarios():
+    """Minimised scenarios of the defects found so far (run first on every run)."""
+    S = []
+    END = [("run", "close"), ("run", None), ("is",), ("release",)]
+    # empty <stream:error/> (fixed d154ddf)
+    S.append(Scenario(base_ops() + [("connect", "client", ["accept"]), ("run", None)] + runs(["h1"], [features(False, ["PLAIN"])], [stream_error(empty=True)]) + END, "corpus:empty-stream-error"))
+    # two teardowns in one read chunk (fixed 117b63d)
+    S.append(Scenario(base_ops(flags=2) + [("connect", "client", ["accept"]), ("run", None)] + runs(["h1"], [features(False, ["PLAIN"]), "z"]) + [("is",), ("release",)], "corpus:double-disconnect"))
+    # stale SASL offers across reconnects (fixed 8f02bf5)
+    S.append(Scenario(base_ops() + [("connect", "client", ["accept"]), ("run", None)] + runs(["h1"], [features(False, ["SCRAM-SHA-1", "DIGEST-MD5", "PLAIN"])], "close") +
+                      [("connect", "client", ["accept"]), ("run", None)] + runs(["h1"], [features(False, ["PLAIN"])]) + END, "corpus:stale-sasl"))
+    # component: first inbound element (fixed 36e561d)
+    S.append(Scenario(base_ops(user=(0, None)) + [("connect", "component", ["accept"]), ("run", None)] + runs(["h1"], [Elem("component", "handshake", xml="<handshake xmlns='jabber:component:accept'/>")]) + END, "corpus:component-sm-null"))
+    # <resumed/> and <failed/> answering <enable/> (fixed)
+    for el in (sm_elem("resumed", previd=True, h=0), sm_elem("failed", cause="item-not-found"), sm_elem("failed", cause="other", h=3)):
+        S.append(Scenario(base_ops() + [("connect", "client", ["accept"]), ("run", None)] + runs(*(happy_client(tls=False)[:-1] + [[el]])) + [("is",), ("send",), ("run", None)] + END, "corpus:sm-null-" + el.kind))
+    # DIGEST-MD5 challenge without text / nonce (fixed)
+    for ch in ("empty", "digest_nononce"):
+        S.append(Scenario(base_ops() + [("connect", "client", ["accept"]), ("run", None)] + runs(["h1"], [features(False, ["DIGEST-MD5"])], [challenge(ch)]) + END, "corpus:digest-" + ch))
+    # late legacy-auth result after SASL + bind: second 'connected' (fixed a5326b8)
+    S.append(Scenario(base_ops(flags=16) + [("connect", "client", ["accept"]), ("run", None), ("run", ("items", ["h1"])), ("clock", 15000), ("run", None), ("run", None)] +
+                      runs(*(happy_client(tls=False, sm=False)[1:])) + [("is",)] + runs([iq("auth", "result")]) + END, "corpus:double-connect-legacy"))
+    # resume without an SM offer (fixed 7178df9): resumable session, reconnect, features with bind only
+    first = runs(*happy_client(tls=False)) + [("send",), ("run", None), ("run", "reset"), ("run", None)]
+    S.append(Scenario(base_ops() + [("connect", "client", ["accept"]), ("run", None)] + first + [("connect", "client", ["accept"]), ("run", None)] +
+                      runs(["h1"], [features(False, ["PLAIN"])], [SUCCESS], ["h1"], [features(bind=True, sm=False)]) + END, "corpus:resume-without-offer"))
+    # negotiation element retained by SM and re-sent (fixed e0ade9b): server pipelines the bind result with the features
+    S.append(Scenario(base_ops() + [("connect", "client", ["accept"]), ("run", None)] + runs(["h1"], [features(False, ["PLAIN"])], [SUCCESS], ["h1", features(bind=True, sm=True), iq("bind", "result", "bindjid")],
+                                                                                                [sm_elem("enabled", True, True)]) + [("run", None)] + END, "corpus:sm-retains-bind"))
+    # element in a foreign namespace with a SASL-namespace child taken for <success/> (fixed 7c00178)
+    fake = Elem("other", "success", childns=["sasl"], xml="<success xmlns='urn:example:other'><x xmlns='%s'/></success>" % NSURI["sasl"])
+    S.append(Scenario(base_ops() + [("connect", "client", ["accept"]), ("run", None)] + runs(["h1"], [features(False, ["PLAIN"])], [fake], ["h1"], [features(bind=True)], [iq("bind", "result", "bindjid")]) + END, "corpus:childns-success"))
+    fake_err = Elem("client", "error", childns=["streams"], xml="<error xmlns='jabber:client'><text xmlns='%s'/></error>" % NSURI["streams"], cond=7, text=1)
+    S.append(Scenario(base_ops() + [("connect", "client", ["accept"]), ("run", None)] + runs(["h1"], [fake_err]) + END, "corpus:childns-error"))
+    # PLAIN after SCRAM was offered before STARTTLS, via the missing-features time-out of the TLS stream (fixed 074cd09)
+    S.append(Scenario(base_ops() + [("connect", "client", ["accept"]), ("run", None)] + runs(["h1"], [features(True, ["SCRAM-SHA-1", "PLAIN"])], [PROCEED], ["h1"]) +
+                      [("clock", 15000), ("run", None), ("run", None)] + runs([features(False, ["PLAIN"])]) + END, "corpus:plain-after-tls-timeout"))
+    # missing features after SASL success with compression allowed re-authenticated (fixed a1262cf)
+    S.append(Scenario(base_ops(flags=64 + 16) + [("connect", "client", ["accept"]), ("run", None)] + runs(["h1"], [features(False, ["PLAIN"])], [SUCCESS], ["h1"]) +
+                      [("clock", 15000), ("run", None), ("run", None)] + END, "corpus:reauth-after-success"))
+    # xmpp_connect_raw on a live client connection (fixed 7be39ad)
+    S.append(Scenario(base_ops() + [("connect", "client", ["accept"]), ("run", None)] + runs(["h1"]) + [("connect", "raw", ["accept"]), ("openstream",), ("run", None)] + runs(["h1"]) + [("is",)] + END, "corpus:raw-hijack"))
+    # known finding: xmpp_send_raw during negotiation
+    S.append(Scenario(base_ops() + [("connect", "client", ["accept"]), ("run", None)] + runs(["h1"], [features(False, ["PLAIN"])]) + [("sendraw",), ("send",), ("run", None)] + END, "corpus:sendraw-during-negotiation"))
+    return S
+
+
+def deadline_scenarios(rng, thorough=False):
+    """Silence at a stage that has a deadline, with clock steps around it (C13).  Every scenario carries
+    `expect = (deadline_ms, strict, give-up tokens)`: everything before the silence happens at one instant, so the
+    wait is armed at elapsed 0; a timed wait (fires at elapsed >= D) shows its effect on the wire in the iteration
+    after the first one with elapsed >= D, a TCP connect wait (abandoned at elapsed > D) in that iteration itself."""
+    S = []
+    CLOSE = ("W:close", "T:close")
+    hc = happy_client(tls=False, session="req", sm=False)     # h1, features, success, h1, features(bind,session), bind result, session result
+    stages = [
+        ("client", 0, hc[:1], 15000, CLOSE, "features"),          # stream header received, features missing
+        ("client", 16, hc[:1], 15000, ("W:legacy",), "features-then-legacy"),
+        ("client", 0, hc[:4], 15000, CLOSE, "features-after-sasl"),
+        ("client", 0, hc[:5], 15000, CLOSE, "bind"),
+        ("client", 0, hc[:6], 15000, CLOSE, "session"),
+        ("component", 0, [["h1"]], 15000, CLOSE, "handshake"),
+    ]
+    tls = happy_client(tls=True, sm=False)
+    stages.append(("client", 0, tls[:4], 15000, CLOSE, "features-after-tls"))
+    deltas = ((14999, 1, 1, 1), (15000, 1, 1), (1, 14998, 1, 1, 1), (15001, 1), (7000, 7999, 1, 1, 1), (14999, 2, 1), (30000, 1))
+    for kind, fl, pre, d, toks, name in stages:
+        for delta in deltas:
+            ops = base_ops(flags=fl, user=(1, 15000)) + [("connect", kind, ["accept"]), ("run", None)] + runs(*pre)
+            mark = len(ops)
+            for dt in delta:
+                ops += [("clock", dt), ("run", None), ("is",)]
+            ops += [("release",)]
+            sc = Scenario(ops, "deadline:%s:%s" % (name, "+".join(map(str, delta))))
+            sc.expect = (d, False, toks, mark)
+            S.append(sc)
+    # TCP connect: 5 s per candidate
+    for eps in (["hang"], ["hang", "accept"], ["hang", "hang"]):
+        for delta in ((4999, 1, 1, 1), (5000, 1, 1), (5001, 1), (2500, 2500, 1, 1), (4999, 2, 1)):
+            ops = base_ops() + [("connect", "client", eps)]
+            mark = len(ops)
+            for dt in delta:
+                ops += [("clock", dt), ("run", None), ("is",)]
+            ops += [("release",)]
+            sc = Scenario(ops, "deadline:connect:%s:%s" % ("".join(e[0] for e in eps), "+".join(map(str, delta))))
+            sc.expect = (5000, True, ("X",), mark)
+            S.append(sc)
+    # graceful close: 2 s
+    for delta in ((1999, 1, 1), (2000, 1), (2001, 1), (1000, 999, 1, 1)):
+        ops = base_ops() + [("connect", "client", ["accept"]), ("run", None)] + runs(*happy_client(tls=False, sm=False)) + [("is",), ("disc",), ("run", None)]
+        mark = len(ops)
+        for dt in delta:
+            ops += [("clock", dt), ("run", None), ("is",)]
+        ops += [("release",)]
+        sc = Scenario(ops, "deadline:close:%s" % "+".join(map(str, delta)))
+        sc.expect = (2000, "same", ("E:disconnect",), mark)
+        S.append(sc)
+    return S
+
+
+def judge_deadline(chk, sc, toks):
+    """The wait is given up when, and not before, its deadline has passed (scenario families with `expect`)."""
+    d, strict, give, mark = sc.expect
+    segs, _ = split_by_op(sc, toks)
+    cum = 0
+    due_run = None      # index (among the runs after mark) of the first run at which the deadline has passed
+    runs_seen = []
+    for (o, seg) in segs[mark:]:
+        if o[0] == "clock":
+            cum += o[1]
+        elif o[0] == "run":
+            passed = cum > d if strict is True else cum >= d
+            if passed and due_run is None:
+                due_run = len(runs_seen)
+            runs_seen.append(seg)
+    if strict is True or strict == "same":
+        expected = due_run                     # visible in the iteration that notices it
+    else:
+        expected = None if due_run is None else due_run + 1    # queued then, written by the next iteration
+    observed = None
+    for k, seg in enumerate(runs_seen):
+        if any(any(t.startswith(g) for g in give) for t in seg):
+            observed = k
+            break
+    if expected is not None and expected >= len(runs_seen):
+        expected = None
+    if observed != expected:
+        chk.fail({"label": sc.label, "sim": sc.sim_line(), "model_in": sc.model_line()},
+                 "deadline %d ms: given up in iteration %s after the silence began, expected %s (%s)" % (d, observed, expected, sc.label), "deadlines")
+
+
+def flag_scenarios(rng, thorough=False):
+    """All 256 flag words offline, and set_flags / connect in every state (C13)."""
+    S = []
+    words = list(range(256)) + [256, 511, 1 << 20]
+    for i in range(0, len(words), 16):
+        ops = [("jid", 1, 1), ("pass", 1), ("user", 0, None), ("env", 1, 0, [])]
+        for w in words[i:i + 16]:
+            ops.append(("flags", w))
+        ops += [("is",), ("release",)]
+        S.append(Scenario(ops, "flags:offline:%d" % i))
+    hc = happy_client(tls=False, sm=False)
+    for cut in range(0, len(hc) + 1):
+        for w in (0, 1, 2, 64, 255):
+            ops = base_ops(flags=0) + [("connect", "client", ["accept"]), ("run", None)] + runs(*hc[:cut]) + \
+                [("flags", w), ("connect", "client", ["accept"]), ("is",), ("run", None), ("run", "close"), ("run", None), ("flags", w), ("is",), ("release",)]
+            S.append(Scenario(ops, "flags:online:%d:%d" % (cut, w)))
+    return S
+
+
+def policy_scenarios(rng, thorough=False):
+    """C02: every TLS flag word x what the server offers / answers around STARTTLS and SASL."""
+    S = []
+    for fl in (0, 1, 2, 4, 8, 2 + 8, 2 + 4, 2 + 16, 16, 1 + 16, 2 + 64):
+        for offer_tls in (False, True):
+            for mechs in (["PLAIN"], ["SCRAM-SHA-1", "PLAIN"], ["DIGEST-MD5", "PLAIN"], ["ANONYMOUS", "PLAIN"], ["EXTERNAL", "PLAIN"], []):
+                for answer in ("proceed", "tlsfail", "none", "verdictfail", "tlsnewfail"):
+                    if not offer_tls and answer not in ("none",):
+                        continue
+                    chunks = [["h1"], [features(offer_tls, mechs)]]
+                    verdicts, tlsnew = [], 1
+                    if answer == "proceed":
+                        chunks += [[PROCEED], ["h1"], [features(False, ["PLAIN"] if rng.random() < .5 else mechs)]]
+                    elif answer == "tlsfail":
+                        chunks += [[simple("tls", "failure")], [features(False, mechs)]]
+                    elif answer == "verdictfail":
+                        verdicts = [False]
+                        chunks += [[PROCEED], ["h1"], [features(False, mechs)]]
+                    elif answer == "tlsnewfail":
+                        tlsnew = 0
+                    chunks += [[challenge("scram_ok")], [simple("sasl", "failure")], [challenge("digest_ok")], [simple("sasl", "failure")], [SUCCESS], ["h1"], [features(bind=True)]]
+                    ops = base_ops(flags=fl, cert=int("EXTERNAL" in mechs and rng.random() < .5), tlsnew=tlsnew, verdicts=verdicts) + \
+                        [("connect", "client", ["accept"]), ("run", None)] + runs(*chunks) + [("clock", 15000), ("run", None), ("run", None), ("is",), ("release",)]
+                    S.append(Scenario(ops, "policy:%d:%d:%s:%s" % (fl, offer_tls, "+".join(mechs), answer)))
+    if not thorough:
+        rng.shuffle(S)
+        S = S[:260]
+    return S
+
+
+def run_check(chk, pid, families, n_random):
+    """Common driver of C01/C02/C03/C13."""
+    chk.assumptions = [
+        "elements are abstracted to the alphabet of coq/Model/NegState.v (namespace, name, type, id, payload flags); byte-level parsing is C10's",
+        "the transport accepts every write completely in these scenarios (back-pressure is C06's)",
+        "TLS is the harness module (verdict scripted); the real tls_openssl.c is C08's",
+        "oracle: checks/negsim.py Observer replays the scenario against the canonical implementation trace",
+    ]
+    chk.prove()
+    thorough = chk.tier == "thorough"
+    scen = corpus_scenarios()
+    labels = ["corpus"] * len(scen)
+    for name, fn in families:
+        f = fn(chk.rng, thorough)
+        scen += f
+        labels += [name] * len(f)
+    rnd = [gen_scenario(chk.rng) for _ in range(n_random * (12 if thorough else 1))]
+    scen += rnd
+    labels += ["random"] * len(rnd)
+    results = run_scenarios(chk, pid, scen, stream="neg")
+    by = {}
+    for lab, r in zip(labels, results):
+        by.setdefault(lab, []).append(r)
+    known = {}
+    for lab, rs in by.items():
+        judge(chk, pid, rs, lab)
+        if pid == "C13":
+            for sc, toks, info, mt in rs:
+                if getattr(sc, "expect", None) and not info["crash"]:
+                    judge_deadline(chk, sc, toks)
+    for k in range(0, len(results), max(1, len(results) // 6)):
+        sc, toks, info, mt = results[k]
+        chk.sample({"label": sc.label, "scenario": sc.model_line()[:300], "impl_trace": " ".join(toks)[:400]})
+    chk.rule = ("abstract scenarios over the NegModel alphabet: minimised corpus of every defect found, families aimed at the property "
+                "(%s), and random scripts (conforming server perturbed by replace/drop/duplicate/insert/close/reset/silence/user-op, "
+                "1-3 connect cycles, clock steps around the deadlines); non-trivial = distinct canonical trace longer than 12 tokens"
+                % ", ".join(n for n, _ in families))
+    return results
+
+
+def replay_common(pid, path):
+    import base64
+    import json
+    import pickle
+    rec = json.load(open(path))
+    f = rec.get("failure") or (rec.get("disagreements") or [{}])[0]
+    case = f.get("case")
+    if not case or "sim" not in case:
+        print("replay file names no concrete scenario: %s" % json.dumps(rec.get("broken_obligations"))[:800])
+        return 1
+    exe = vlib.build_simworld()
+    impl = vlib.run_lines(exe, [case["sim"]])[0]
+    toks, info = canon_trace(impl)
+    try:
+        model = vlib.run_lines(vlib.build_ocaml_model(pid), [case["model_in"]])[0]
+    except vlib.BuildError:
+        model = "(model unavailable)"
+    print("scenario: %s\nimpl    : %s\nmodel   : %s\nend     : %s" % (case["model_in"], " ".join(toks), model, info.get("end")))
+    return 0 if " ".join(toks) == model.split(" CHK=")[0] and not info["crash"] else 1
